@@ -124,19 +124,24 @@ def main():
   # s_in * s_w is then below 1e-9 and the weight range at the library's 1e-4 floor (QuantMath!MinBound)
   tiny = [k for k in fams.get("weights_1op", []) if dumps[k]["scn"]["mode"][0][0]["m"] == "SRQ" and dumps[k]["scn"]["mode"][0][0]["a"] in ("a8a", "a8s")
           and dumps[k]["scn"]["subs"][0]["ops"][0]["kind"] in ("FC", "TCONV")]
+  # float16 casting of weights at and beyond the edge of the float16 range (65504 is the largest finite value, 65520 and above
+  # round to infinity)
+  huge = [k for k in fams.get("weights_1op", []) if dumps[k]["scn"]["mode"][0][0]["m"] == "F16"]
   jobs = [(k, "grid") for k in chosen] + [(k, "tiny") for k in common.sample_keep(tiny, 40 if args.tier == "quick" else 10**6, args.seed)]
+  if prop == "C05":
+    jobs += [(k, "huge") for k in common.sample_keep(huge, 30 if args.tier == "quick" else 10**6, args.seed)]
   for k, variant in jobs:
     d = dumps[k]
     scn = d["scn"]
     rng_k = np.random.default_rng(args.seed + len(runs))
     try:
-      model, info = synth.build(scn, args.seed, const_fn=numeric.grid_const(rng_k) if variant == "grid" else numeric.tiny_const(rng_k))
+      model, info = synth.build(scn, args.seed, const_fn={"grid": numeric.grid_const, "tiny": numeric.tiny_const, "huge": numeric.huge_const}[variant](rng_k))
     except synth.Unrealisable:
       continue
     if not policy_ok(scn, info["codes"]):
       continue
     try:
-      impl = pipeline.run_impl(scn, seed=args.seed, model=model, info=info, stats="inject" if variant == "grid" else numeric.small_stats(scn))
+      impl = pipeline.run_impl(scn, seed=args.seed, model=model, info=info, stats=numeric.small_stats(scn) if variant == "tiny" else "inject")
     except ValueError as e:
       outcomes["recipe-refused"] = outcomes.get("recipe-refused", 0) + 1
       continue
@@ -157,6 +162,10 @@ def main():
     outcomes["variant:" + variant] = outcomes.get("variant:" + variant, 0) + 1
     for si in range(len(scn["subs"])):
       for t, term in enumerate(d["R"][si]["par"]):
+        # a float16 constant carries no annotation (par = none): the term its data was written under is in `data`
+        dterms = d["R"][si].get("data", [])
+        if term == ["none"] and t < len(dterms) and dterms[t][0] == "F16":
+          term = dterms[t]
         # the term the data was written under (constants) is the last write to the buffer; annotation term otherwise
         exp = numeric.expected(term, ctx)
         roles = scn["subs"][si]["trole"]
@@ -200,7 +209,8 @@ def main():
           chk.violation("tensor %s carries quantization parameters although none are expected" % where, dict(rep, clause="unexpected-params", tensor=tp["name"]))
         if exp["kind"] == "f16" and prop in ("C05", "C15"):
           raw = ctx.out_proj and project.buffer_bytes(run["impl"]["out_bytes"], tp["buf"])
-          want = exp["data"].astype(np.float16).tobytes()      # on-grid values are exactly representable: RNE is the identity
+          with np.errstate(over="ignore"):
+            want = exp["data"].astype(np.float16).tobytes()    # IEEE round-to-nearest-even (identity on the grid, +-inf from 65520 on)
           if raw != want or tp["dt"] != "f16":
             chk.violation("float16 constant %s does not hold the round-to-nearest float16 of the original" % where, dict(rep, clause="fp16", tensor=tp["name"]))
           nconst += 1
